@@ -672,6 +672,10 @@ def extract_item(gen, it):
       m = re.match(r"#\[derive\(([^)]*)\)\]", prev)
       if m:
         keep = [d.strip() for d in m.group(1).split(",") if d.strip() in it.keep_derive]
+        if "Copy" not in keep:
+          keep = []  # Clone without Copy would drag Clone bounds onto every stand-in field type
+        if "PartialEq" in keep and "Eq" in keep:
+          keep.append("Structural")  # derived PartialEq on a plain enum IS structural equality; tells Verus so
         if keep:
           derive = "#[derive(%s)]\n" % ", ".join(keep)
       k = ps
@@ -679,10 +683,18 @@ def extract_item(gen, it):
         break
     else:
       break
-  # strip visibility on the item keyword line only
-  m = re.match(r"\s*(pub(\([a-z]+\))?\s+)", ot.s)
-  if m:
-    ot.replace(0, m.end(), "")
+  # R5: visibility normalised to `pub` (item and, for structs, every field) so that spec functions may mention them
+  m = re.match(r"\s*(pub(\([a-z]+\))?\s+)?", ot.s)
+  ot.replace(0, m.end(), "pub ")
+  if it.kind == "struct":
+    pos = 0
+    while True:
+      mm = re.compile(r"(?m)^([ \t]+)(pub(?:\([a-z]+\))?\s+)?([A-Za-z_][A-Za-z0-9_]*\s*:)").search(ot.s, pos)
+      if not mm:
+        break
+      rep = mm.group(1) + "pub " + mm.group(3)
+      ot.replace(mm.start(), mm.end(), rep)
+      pos = mm.start() + len(rep)
   # strip doc comments and attributes inside (R5)
   while True:
     m = re.search(r"(?m)^[ \t]*(///[^\n]*|#\[[^\]\n]*\])[ \t]*\n", ot.s)
